@@ -92,6 +92,12 @@ func verifC09_Filter() {
 	vMono = 1000
 	limit := int(verifInt("strictLimit", 1, 2))
 	spec := vSpec(limit)
+	// both rules may be bound to the SAME policy: each rule still has a permit budget of its own
+	samePolicy := verifBool("bothRulesBoundToTheSamePolicy")
+	if samePolicy {
+		spec.URLs[1].PolicyRef = "strict"
+		verifCover("two-rules-one-policy")
+	}
 	verifAssert(spec.Validate() == nil, "spec-valid")
 	rl := &RateLimiter{spec: spec}
 	rl.Init()
@@ -115,6 +121,8 @@ func verifC09_Filter() {
 				verifAssert(res == "" && a0 == b0+1, "admitted-and-charged")
 				verifCover("admitted-by-strict-rule")
 			}
+		case m1 && samePolicy && b1 >= limit:
+			verifAssert(res == resultRateLimited && a0 == b0, "rejected-429-rateLimited")
 		case m1:
 			verifAssert(res == "" && a0 == b0 && a1 == b1+1, "second-rule-charged-when-first-does-not-match")
 			verifCover("admitted-by-prefix-rule")
